@@ -237,67 +237,73 @@ Local Notation R := (VL [VS rname; VS p]).
 Local Notation L := (VZ (Z.of_nat (List.length p))).
 Local Notation st k j hb evs := (mk R (VZ (Z.of_nat k)) L hb (VZ (Z.of_nat j)) evs).
 
+(* facts first (every comparison the body can make is decided up front and kept as an equation), then evaluation: the
+   script does not depend on the order in which the source makes its tests *)
+Ltac use_facts := repeat match goal with
+                         | H : ?l = true |- context [?l] => rewrite H
+                         | H : ?l = false |- context [?l] => rewrite H
+                         end.
+Ltac crunch := repeat (progress (step; use_facts)).
+
 Lemma body_spec k j hb evs : (k < List.length p)%nat ->
   exists k1 j1 hb1 out, exec rsym rpred [] byte_body (st k j hb evs) = (st k1 j1 hb1 (evs ++ out), Next) /\ (k <= k1)%nat /\
     rev (skipn k p) (skipn j vals) = (written out ++ rev (skipn (S k1) p) (skipn j1 vals))%list.
 Proof.
   intro Hk. pose proof (skipn_nth zero p k Hk) as Hs.
   let b := eval vm_compute in byte_body in change byte_body with b.
-  step. set (c := nth k p zero) in *.
-  destruct (Ascii.eqb c bslash) eqn:Eb.
-  - assert (Hc : c = bslash) by (apply Ascii.eqb_eq; exact Eb).
-    assert (Hcs : Ascii.eqb c starc = false) by (rewrite Hc; reflexivity).
-    subst c.
-    destruct ((S k <? List.length p)%nat) eqn:El; [destruct (Ascii.eqb (nth (S k) p zero) colon) eqn:Ec|].
-    + (* an escaped colon: the backslash is skipped, the colon written *)
-      assert (Hn : nth (S k) p zero = colon) by (apply Ascii.eqb_eq; exact Ec).
-      assert (Hst : Ascii.eqb (nth (S k) p zero) starc = false) by (rewrite Hn; reflexivity).
-      step. rewrite Hst. destruct (j <? List.length vals)%nat; step; rewrite El; step.
-      all: exists (S k), j, (b2v true); eexists; (split; [reflexivity|]); (split; [lia|]).
-      all: rewrite Hs, (skipn_nth zero p (S k)) by (apply Nat.ltb_lt; exact El); rewrite Hc, Hn, rev_esc.
-      all: fin.
-    + (* a backslash before something else: written as it is *)
-      step. rewrite Hcs. destruct (j <? List.length vals)%nat; step.
-      all: assert (Hkl : (k <? List.length p)%nat = true) by (apply Nat.ltb_lt; exact Hk); rewrite Hkl; step.
-      all: exists k, j, (b2v true); eexists; (split; [reflexivity|]); (split; [lia|]).
-      all: rewrite Hs, (skipn_nth zero p (S k)) by (apply Nat.ltb_lt; exact El); rewrite Hc, (rev_bs_other _ _ _ Ec).
-      all: fin.
-    + step. rewrite Hcs. destruct (j <? List.length vals)%nat; step.
-      all: assert (Hkl : (k <? List.length p)%nat = true) by (apply Nat.ltb_lt; exact Hk); rewrite Hkl; step.
-      all: exists k, j, (b2v true); eexists; (split; [reflexivity|]); (split; [lia|]).
-      all: apply Nat.ltb_ge in El; rewrite Hs, (skipn_all2 p (n := S k)) by lia; rewrite Hc, rev_bs_end, rev_nil.
-      all: fin.
-  - assert (Hkl : (k <? List.length p)%nat = true) by (apply Nat.ltb_lt; exact Hk).
-    subst c. step.
+  assert (Hkl : (k <? List.length p)%nat = true) by (apply Nat.ltb_lt; exact Hk).
+  destruct (Ascii.eqb (nth k p zero) bslash) eqn:Eb.
+  - assert (Hc : nth k p zero = bslash) by (apply Ascii.eqb_eq; exact Eb).
+    assert (Hcs : Ascii.eqb (nth k p zero) starc = false) by (rewrite Hc; reflexivity).
+    assert (Hcc : Ascii.eqb (nth k p zero) colon = false) by (rewrite Hc; reflexivity).
     destruct (j <? List.length vals)%nat eqn:Ej;
-      [destruct (Ascii.eqb (nth k p zero) starc) eqn:Est; [|destruct (Ascii.eqb (nth k p zero) colon) eqn:Eco]|].
-    1,2: assert (Hp : Ascii.eqb (nth k p zero) colon || Ascii.eqb (nth k p zero) starc = true)
-           by (rewrite ?Est, ?Eco; try reflexivity; apply orb_true_r).
-    1,2: assert (Hnsl : Ascii.eqb (nth k p zero) "/"%char = false)
-           by (first [apply Ascii.eqb_eq in Est; rewrite Est | apply Ascii.eqb_eq in Eco; rewrite Eco]; reflexivity).
-    1,2: step;
+      (destruct ((S k <? List.length p)%nat) eqn:El; [destruct (Ascii.eqb (nth (S k) p zero) colon) eqn:Ec|]).
+    all: try (assert (Hn : nth (S k) p zero = colon) by (apply Ascii.eqb_eq; exact Ec);
+              assert (Hst : Ascii.eqb (nth (S k) p zero) starc = false) by (rewrite Hn; reflexivity)).
+    all: crunch.
+    (* an escaped colon: the backslash is skipped, the colon written *)
+    all: try (match goal with Hn' : nth _ _ _ = colon |- _ => idtac end;
+              exists (S k), j, (b2v true); eexists; (split; [reflexivity|]); (split; [lia|]);
+              rewrite Hs, (skipn_nth zero p (S k)) by (apply Nat.ltb_lt; exact El); rewrite Hc, Hn, rev_esc; fin; fail).
+    (* a backslash before something else, or at the end: written as it is *)
+    all: exists k, j, (b2v true); eexists; (split; [reflexivity|]); (split; [lia|]).
+    all: try (match goal with Ec' : Ascii.eqb (nth (S _) _ _) colon = false |- _ => idtac end;
+              rewrite Hs, (skipn_nth zero p (S k)) by (apply Nat.ltb_lt; exact El); rewrite Hc, (rev_bs_other _ _ _ Ec); fin; fail).
+    all: apply Nat.ltb_ge in El; rewrite Hs, (skipn_all2 p (n := S k)) by lia; rewrite Hc, rev_bs_end, rev_nil; fin.
+  - destruct (j <? List.length vals)%nat eqn:Ej; destruct (Ascii.eqb (nth k p zero) starc) eqn:Est;
+      destruct (Ascii.eqb (nth k p zero) colon) eqn:Eco.
+    all: try (apply Ascii.eqb_eq in Est; apply Ascii.eqb_eq in Eco; rewrite Est in Eco; discriminate).
+    (* a parameter or the wildcard, and a value is left: the name is skipped, the value written, then the '/' if there is one *)
+    all: try (match goal with Ej' : (_ <? _)%nat = true, E' : Ascii.eqb (nth _ _ _) _ = true |- _ => idtac end;
+         assert (Hp : Ascii.eqb (nth k p zero) colon || Ascii.eqb (nth k p zero) starc = true) by (rewrite Est, Eco; reflexivity);
+         assert (Hnsl : Ascii.eqb (nth k p zero) "/"%char = false)
+           by (first [apply Ascii.eqb_eq in Est; rewrite Est; reflexivity | apply Ascii.eqb_eq in Eco; rewrite Eco; reflexivity]);
+         crunch;
          match goal with |- context [while_loop ?C ?B ?Q ?fu ?s] =>
            destruct (skip_loop rname p C B Q) with (n := fu) (k := k) (j := j) (hb := b2v false) (evs := evs) as (k' & Hr & Hle & Hsk);
              [intros; step; reflexivity | intros; reflexivity | intros; step; reflexivity | lia | ]
          end;
-         rewrite Hr; clear Hr; step;
-         apply Nat.ltb_lt in Ej; rewrite (nth_map_VS _ _ Ej); step;
+         rewrite Hr; clear Hr;
+         pose proof Ej as Ej'; apply Nat.ltb_lt in Ej';
+         destruct (k' <? List.length p)%nat eqn:Ek';
+         crunch; rewrite (nth_map_VS _ _ Ej'); crunch;
          rewrite Hs in Hsk; cbn [drop_seg] in Hsk; rewrite Hnsl in Hsk;
-         rewrite Hs, (skipn_nth [] vals j Ej), (rev_param _ _ _ _ Eb Hp), <- Hsk;
-         destruct (k' <? List.length p)%nat eqn:Ek'; step.
-    1,3: apply Nat.ltb_lt in Ek'; rewrite (skipn_nth zero p k' Ek') in Hsk |- *;
-         destruct (drop_seg_shape (skipn (S k) p)) as [Hd | [r' Hd]]; rewrite Hd in Hsk; [discriminate|];
-         injection Hsk as Hsl Hr'; rewrite Hsl;
-         exists k', (S j), (b2v false); eexists; (split; [rewrite <- app_assoc; reflexivity|]); (split; [lia|]);
-         rewrite rev_slash; fin; rewrite <- app_assoc; reflexivity.
-    1,2: apply Nat.ltb_ge in Ek'; rewrite (skipn_all2 p (n := k')), rev_nil by lia;
-         exists k', (S j), (b2v false); eexists; (split; [reflexivity|]); (split; [lia|]);
-         rewrite (skipn_all2 p (n := S k')), rev_nil by lia; fin.
-    all: step; rewrite Hkl; step.
+         rewrite Hs, (skipn_nth [] vals j Ej'), (rev_param _ _ _ _ Eb Hp), <- Hsk;
+         [ apply Nat.ltb_lt in Ek'; rewrite (skipn_nth zero p k' Ek') in Hsk |- *;
+           destruct (drop_seg_shape (skipn (S k) p)) as [Hd | [r' Hd]]; rewrite Hd in Hsk; [discriminate|];
+           injection Hsk as Hsl Hr'; rewrite Hsl;
+           exists k', (S j), (b2v false); eexists; (split; [rewrite <- app_assoc; reflexivity|]); (split; [lia|]);
+           rewrite rev_slash; fin; rewrite <- app_assoc; reflexivity
+         | apply Nat.ltb_ge in Ek'; rewrite (skipn_all2 p (n := k')), rev_nil by lia;
+           exists k', (S j), (b2v false); eexists; (split; [reflexivity|]); (split; [lia|]);
+           rewrite (skipn_all2 p (n := S k')), rev_nil by lia; fin ]; fail).
+    (* anything else: written as it is *)
+    all: crunch.
     all: exists k, j, (b2v false); eexists; (split; [reflexivity|]); (split; [lia|]).
-    + rewrite Hs, (rev_keep _ _ _ Eb) by (right; rewrite Est, Eco; reflexivity). fin.
-    + apply Nat.ltb_ge in Ej. rewrite Hs, (skipn_all2 vals (n := j)) by lia.
-      rewrite (rev_keep _ _ _ Eb) by (left; reflexivity). fin.
+    all: try (match goal with Ej' : (_ <? _)%nat = false |- _ => idtac end;
+              apply Nat.ltb_ge in Ej; rewrite Hs, (skipn_all2 vals (n := j)) by lia;
+              rewrite (rev_keep _ _ _ Eb) by (left; reflexivity); fin; fail).
+    all: rewrite Hs, (rev_keep _ _ _ Eb) by (right; rewrite Est, Eco; reflexivity); fin.
 Qed.
 End Body.
 
